@@ -246,17 +246,23 @@ func (c *FnCtx) evalAppend(x *ast.CallExpr, st *State) string {
 	return res
 }
 
-// frameCheckAppend: an in-place append writes into the backing array beyond len; that is a frame
-// event only if the array existed at entry and the write lands within the length of a caller-visible
-// slice. We use the conservative reading: in-place append onto a pre-existing array must be permitted
-// by a modifies elems() clause.
+// frameCheckAppend: an in-place append writes into the backing array beyond len. That is a frame event when the
+// array existed at entry and was not handed over as a slice argument: appending in place to a slice read out of an
+// input structure (p.Elem, a map value, a global) can overwrite what another holder of the same array appended
+// earlier. Appending to a slice-typed parameter itself is Go's usual ownership convention and is allowed; anything
+// else must be permitted by a modifies elems() clause.
 func (c *FnCtx) frameCheckAppend(st *State, s, fits, noop string, x *ast.CallExpr) {
-	if c.specMode > 0 || !c.frameOn || c.con == nil || c.con.ModHeap || !c.eng.strictAppendFrame {
+	if c.specMode > 0 || !c.frameOn || c.con == nil || c.con.ModHeap {
 		return
 	}
 	entryAlloc := c.heapName("alloc", 0)
 	c.declare(entryAlloc, "(Array Int Bool)")
 	allowed := []string{not(fits), noop, not(sel(entryAlloc, "(sbase "+s+")"))}
+	for _, it := range c.inputTerms {
+		if _, ok := it.typ.Underlying().(*types.Slice); ok {
+			allowed = append(allowed, eq("(sbase "+s+")", "(sbase "+it.term+")"))
+		}
+	}
 	for _, m := range c.con.Modifies {
 		if m.Kind == "elems" {
 			allowed = append(allowed, eq("(sbase "+s+")", "(sbase "+c.evalModObj(m)+")"))
@@ -433,6 +439,7 @@ func (c *FnCtx) evalSpecBuiltin(x *ast.CallExpr, fobj *types.Func, st *State) st
 			c.fail(x.Pos(), "quantifier needs a function literal")
 		}
 		env := map[types.Object]string{}
+		var order []types.Object // binder order (map iteration must not decide the SMT text)
 		var binders []string
 		var ranges []string
 		for _, f := range lit.Type.Params.List {
@@ -441,6 +448,7 @@ func (c *FnCtx) evalSpecBuiltin(x *ast.CallExpr, fobj *types.Func, st *State) st
 				c.nfresh++
 				bn := fmt.Sprintf("%s!q%d", sanitize(nm.Name), c.nfresh)
 				env[obj] = bn
+				order = append(order, obj)
 				binders = append(binders, "("+bn+" "+c.tt.sortOf(obj.Type())+")")
 				if b, ok := obj.Type().Underlying().(*types.Basic); ok && b.Info()&types.IsInteger != 0 && b.Kind() != types.Int {
 					ranges = append(ranges, c.typeInv(st, bn, obj.Type(), 0))
@@ -458,12 +466,19 @@ func (c *FnCtx) evalSpecBuiltin(x *ast.CallExpr, fobj *types.Func, st *State) st
 		c.specEnv = c.specEnv[:len(c.specEnv)-1]
 		if len(ranges) == 0 && !noAbsolutize {
 			// slice indices relative to a header become absolute array positions (arithmetic-free triggers)
-			for obj, bn := range env {
+			for _, obj := range order {
+				bn := env[obj]
 				if c.tt.sortOf(obj.Type()) != sInt {
 					continue
 				}
 				pn := bn + "p"
-				if nb, ok := absolutize(body, bn, pn); ok {
+				var siblings []string
+				for _, o2 := range order {
+					if o2 != obj {
+						siblings = append(siblings, env[o2])
+					}
+				}
+				if nb, ok := absolutize(body, bn, pn, siblings); ok {
 					body = nb
 					env[obj] = pn
 					for i, b := range binders {
@@ -541,6 +556,10 @@ func (c *FnCtx) evalSpecBuiltin(x *ast.CallExpr, fobj *types.Func, st *State) st
 			return or(eq(ref, "0"), and(not(sel(oldAlloc, ref)), sel(c.alloc(st), ref)))
 		}
 		return and(not(eq(ref, "0")), not(sel(oldAlloc, ref)), sel(c.alloc(st), ref))
+	case "V_samebase":
+		// the two slices share their backing array
+		a, b := c.eval(x.Args[0], st), c.eval(x.Args[1], st)
+		return eq("(sbase "+a+")", "(sbase "+b+")")
 	case "V_sameslice":
 		a, b := c.eval(x.Args[0], st), c.eval(x.Args[1], st)
 		return and(eq("(sbase "+a+")", "(sbase "+b+")"), eq("(soff "+a+")", "(soff "+b+")"), eq("(slen "+a+")", "(slen "+b+")"))
